@@ -19,6 +19,20 @@ CLAIMS = {
    "(44 codes x NEED_REPLY x handler outcome), checks the in-step invariant on the model, and validates the byte stream the real "
    "BackendReqHandler wrote for each of those transitions against the model.",
    "TLA+ model checking (TLC) + model-based test generation + TLC trace validation"),
+ "C06": ("exploration", "2/C06",
+   "MC_Client (FrontendEndpoint.tla) enumerates every (negotiation state, reply/ack-awaiting call, reply mutation class) transition; the raw "
+   "peer sends the mutated reply to the real Frontend and TLC judges the recorded result against the model (error, never success/panic).",
+   "TLC-generated mutation stimuli + TLC trace validation against FrontendEndpoint.tla"),
+ "C07": ("model_checking", "2/C07",
+   "Gating invariants are model-checked on BackendServer.tla and FrontendEndpoint.tla over all reachable negotiation states; every "
+   "(state, gated request/call) transition is replayed on the real BackendReqHandler (raw peer) and the real Frontend (raw peer counting "
+   "bytes) and the traces are validated by TLC (no handler call / zero bytes on the wire before the feature was acknowledged).",
+   "TLA+ model checking (TLC) + model-based test generation + TLC trace validation"),
+ "C08": ("fault_enumeration", "2/C08",
+   "Channel.tla (segments, EOF at any offset) is model-checked per message length; all 2-splits, 3-splits, byte-wise delivery and every "
+   "cut offset of every served request are delivered as real separate segments to the real BackendReqHandler; TLC validates that the "
+   "result equals the unsegmented one and that truncation is an error without dispatch.",
+   "TLA+ model checking of the channel model + exhaustive split/cut enumeration replayed on the code + TLC trace validation"),
 }
 props = [json.loads(l) for l in open(os.path.join(ROOT, "properties.jsonl"))]
 hooks = json.load(open(os.path.join(ROOT, "MANIFEST.json")))["hooks"]
